@@ -341,6 +341,10 @@ pub fn write_family(dir: &Path) -> Vec<FontJob> {
             glyphs,
             flavour: "glyf",
             synthetic: true,
+            classes: Some(std::sync::Arc::new((0..glyphs).map(class_of).collect())),
+            auto_modes: true,
+            thorough_n: None,
+            in_quick: true,
         });
     }
     out
